@@ -37,7 +37,7 @@ V_FULL = [
     # strings
     '""', '"a"', '" a "', '"12"', '"1.5e3"', '"0x1f"', '"aaaa"', "str()", "vs", "ves", "vns", "vnul", "vhigh",
     # bytes
-    'raw("")', 'raw("a")', "raw(2,255)", "raw()", "vb", "vnb",
+    'raw("")', 'raw("a")', 'raw("12")', "raw(2,255)", "raw()", "vb", "vnb",
     # booleans
     "true", "false", "bool()", "vt", "vnt",
     # complex
@@ -52,7 +52,7 @@ V_FULL = [
     "uq", "us", "ut", "ur", "ub",
 ]
 V_QUICK = ["0", "-1", "256", "vimax", "vimin", "vni", "1.5", "vinf", "vnan", "vnd", '""', '"a"', '"12"', "vns", "vnul",
-           'raw("a")', "vnb", "vb", "true", "vnt", "vc", "vnc", "vr", "vnr", "tup()", "vtab", "vtabs", "vtab2", "vtabr", "vntab", "vetab",
+           'raw("a")', 'raw("12")', "vnb", "vb", "true", "vnt", "vc", "vnc", "vr", "vnr", "tup()", "vtab", "vtabs", "vtab2", "vtabr", "vntab", "vetab",
            "null", "vu", "fnull()", "int()", "num()", "str()", "raw()", "bool()", "tab()", "2", "vs", "uq", "us", "ut", "ur"]
 V_SMALL = ["0", "-1", "vimax", "vimin", "vni", "1.5", "vnan", "vnd", '""', '"a"', "vns", "vnul", 'raw("a")', "vnb", "vnt", "vr", "vtab", "vntab",
            "null", "vu", "2", "vs", "uq", "us"]
